@@ -224,4 +224,47 @@ mod verif_kani_numbers {
     #[kani::proof]
     #[kani::unwind(26)]
     fn k10c_oct22() { conv_check::<22>(k10_oct_int_conv(), 8); }
+
+    // ------------------------------------------------------------------ K7s: special floats
+    // special-float = [ minus / plus ] ( inf / nan ): the six spellings, through the real parser.
+    // Complete (the production has exactly six strings): value class and sign bit.
+    fn special(text: &str) -> Option<f64> {
+        let mut input = new_input(text);
+        let r = special_float(&mut input);
+        let out = match &r {
+            Ok(f) => {
+                assert!(input.eof_offset() == 0, "special float not consumed entirely");
+                Some(*f)
+            }
+            Err(_) => None,
+        };
+        core::mem::forget(r);
+        out
+    }
+
+    #[kani::proof]
+    #[kani::unwind(8)]
+    #[kani::stub(alloc::fmt::format, stub_format)]
+    fn k7s_inf() {
+        let a = special("inf");
+        let b = special("+inf");
+        let c = special("-inf");
+        assert!(a == Some(f64::INFINITY), "inf is not +infinity");
+        assert!(b == Some(f64::INFINITY), "+inf is not +infinity");
+        assert!(c == Some(f64::NEG_INFINITY), "-inf is not -infinity");
+        kani::cover!(a.is_some());
+    }
+
+    #[kani::proof]
+    #[kani::unwind(8)]
+    #[kani::stub(alloc::fmt::format, stub_format)]
+    fn k7s_nan() {
+        let a = special("nan");
+        let b = special("+nan");
+        let c = special("-nan");
+        assert!(matches!(a, Some(f) if f.is_nan() && f.is_sign_positive()), "nan is not a positive NaN");
+        assert!(matches!(b, Some(f) if f.is_nan() && f.is_sign_positive()), "+nan is not a positive NaN");
+        assert!(matches!(c, Some(f) if f.is_nan() && f.is_sign_negative()), "-nan is not a negative NaN");
+        kani::cover!(a.is_some());
+    }
 }
